@@ -70,3 +70,4 @@ package verifspec
 //@   param chan: chan, value: num
 //@   abstract_rest
 //@   throws_when chan.$closed
+//@   throws_msg send on closed channel
